@@ -392,6 +392,7 @@ def gen_tree(rng):
                 d3 = d2 + [gen_name(rng, 1)]
                 if d3 not in dirs:
                     dirs.append(d3)
+    twins = rng.random() < 0.4        # the same relative path AND mtime below two directories (copied trees)
     budget = rng.choice([3, 6, 10, 16, 30])
     for d in dirs:
         if not d and rng.random() < 0.7:
@@ -403,6 +404,19 @@ def gen_tree(rng):
             if [*d, nm] in dirs or any(tuple(x[:len(d) + 1]) == tuple([*d, nm]) for x in dirs):
                 continue
             files[tuple([*d, nm])] = rng.randrange(1, 50)
+    if twins and len(dirs) >= 3:
+        for _ in range(rng.randrange(1, 4)):
+            src = rng.choice(sorted(files)) if files else None
+            if src is None:
+                break
+            for d in rng.sample([d for d in dirs if d], min(2, len([d for d in dirs if d]))):
+                k = tuple([*d, *src[-rng.randrange(1, min(3, len(src)) + 1):]])
+                if len(files) < 30 and list(k) not in dirs and not any(tuple(x[:len(k)]) == k for x in dirs) \
+                        and not any(tuple(k[:i]) in files for i in range(1, len(k))):
+                    for i in range(len(d) + 1, len(k)):
+                        if list(k[:i]) not in dirs:
+                            dirs.append(list(k[:i]))
+                    files[k] = files[src]
     return dirs, [(list(k), v) for k, v in sorted(files.items())]
 
 
@@ -480,6 +494,10 @@ def gen_history(rng, tier, force_chain=False):
                 pair.reverse()
             for qs in pair:
                 steps.append(['query', qs, '', [], [], 100])
+        if rng.random() < 0.35:
+            # many matches for a user who sees some of them as locked, small cap: the cap is on the TOTAL
+            steps.append(['query', rng.choice(['mp3', 'flac', '*3', '*c', '*p3 -zzz']), rng.choice(USERS),
+                          rng.sample(USERS, rng.randrange(0, 3)), [], rng.choice([2, 3, 4])])
         for _ in range(rng.choice([1, 2, 2, 3])):
             fr = rng.sample(USERS, rng.randrange(0, 3))
             target = list(rng.choice(sorted(disk))) if disk and rng.random() < 0.8 else None
@@ -564,6 +582,18 @@ def gen_history(rng, tier, force_chain=False):
             for e in ent:
                 if e[0] not in shared:
                     shared.append(e[0])
+        elif r < 0.92 and shared and disk:
+            # a shared directory loses ALL its files on disk, then is rescanned
+            d = rng.choice(shared)
+            gone = [k for k in sorted(disk) if list(k[:len(d)]) == d]
+            for k in gone:
+                steps.append(['rmfile', list(k)])
+                del disk[k]
+            steps.append(['scan', d])
+            if rng.random() < 0.7:
+                scan_all()
+                checkpoint(settled=True)
+                continue
         else:
             # on-disk change: touch / delete / create
             for _ in range(rng.randrange(1, 4)):
@@ -768,6 +798,34 @@ WHAT = {
 }
 
 
+def directed_histories():
+    """Small fixed histories for input classes that random generation only hits sometimes (run on every run, any seed)."""
+    out = []
+    Q = lambda q, u='', fr=(), mx=100: ['query', q, u, list(fr), [], mx]
+    # cap with a mix of visible and locked matches (2 visible + 2 locked, cap 3; 3+1 cap 2; ...)
+    files = [[['pub', 'a one.mp3'], 5], [['pub', 'b one.mp3'], 6], [['pub', 'c one.mp3'], 7], [['priv', 'd one.mp3'], 8],
+             [['priv', 'e one.mp3'], 9], [['priv', 'f one.mp3'], 10]]
+    for mx in (2, 3, 4, 5):
+        for user, fr in (('u1', []), ('u1', ['u1']), ('', [])):
+            out.append({'files': files, 'steps': [['add', ['pub'], 'everyone', []], ['add', ['priv'], 'friends', []], ['scan', ['pub']],
+                                                  ['scan', ['priv']], Q('one', user, fr, mx), Q('*ne mp3', user, fr, mx), ['index', True]]})
+    # the same relative path and mtime below two shared directories (siblings; nested)
+    files = [[['x', 'al', 'song.mp3'], 5], [['y', 'al', 'song.mp3'], 5], [['x', 'n', 'al', 'song.mp3'], 5]]
+    for order in ([['x'], ['y'], ['x', 'n']], [['x', 'n'], ['y'], ['x']], [['y'], ['x']]):
+        st = []
+        for d in order:
+            st += [['add', d, 'everyone', []], ['scan', d]]
+        st += [['scan', d] for d in order] + [Q('song'), Q('*ong al'), Q('song', 'u1'), ['index', True]]
+        out.append({'files': files, 'steps': st})
+    # a shared directory loses all of its files (also: all moved below a nested shared directory), then is rescanned
+    files = [[['d', 'a.mp3'], 5], [['d', 'sub', 'b.mp3'], 6], [['e', 'c.mp3'], 7]]
+    out.append({'files': files, 'steps': [['add', ['d'], 'everyone', []], ['add', ['e'], 'everyone', []], ['scan', ['d']], ['scan', ['e']], Q('mp3'),
+                                          ['rmfile', ['d', 'a.mp3']], ['rmfile', ['d', 'sub', 'b.mp3']], ['scan', ['d']], Q('mp3'), Q('a'), ['index', True]]})
+    out.append({'files': files, 'steps': [['add', ['d'], 'everyone', []], ['scan', ['d']], ['rmfile', ['d', 'a.mp3']], ['add', ['d', 'sub'], 'friends', []],
+                                          ['scan', ['d']], ['scan', ['d', 'sub']], Q('mp3', 'u1'), ['index', True]]})
+    return out
+
+
 def gc_probe():
     """F27: not part of the model (which assumes a collection after every operation)."""
     hist = {'files': [[['d', 'sing.mp3'], 5]], 'steps': [['add', ['d'], 'everyone', []], ['scan', ['d']], ['remove', ['d']],
@@ -815,15 +873,16 @@ def run(run: Run):
     except Exception as e:
         run.add_broken('gc-probe', f'{type(e).__name__}: {e}')
 
-    nhist = int(os.environ.get("VERIF_C07_N", 0)) or (80 if run.tier == "quick" else 400)   # env override: development aid for mutant runs
+    nhist = int(os.environ.get("VERIF_C07_N", 0)) or (65 if run.tier == "quick" else 400)   # env override: development aid for mutant runs
     cases = []
     pairs_paths, pairs_terms = {}, {}
     new_keys = {}
     # directed search when the tie to the source is broken (a translator refused / a proof no longer compiles): more of the
     # histories that exercise the regenerated / fingerprinted decisions (three nested shares in every registration order)
     extra = 0 if proved else 60
-    for i in range(nhist + extra):
-        hist = gen_history(run.rng, run.tier, force_chain=i >= nhist)
+    directed = directed_histories()
+    for i in range(len(directed) + nhist + extra):
+        hist = directed[i] if i < len(directed) else gen_history(run.rng, run.tier, force_chain=i - len(directed) >= nhist)
         try:
             obs = run_history(hist['files'], hist['steps'])
         except Exception as e:
